@@ -22,6 +22,23 @@
 // result, command log (sorted), dump and CheckServiceNodes view. Snapshots go to the model in the node
 // order the implementation used (Go map iteration), read off the command log.
 //
+// Exporter -> importer, end to end (runE2ECase, runE2ECorpus). A real subscriptionManager subscribed for the
+// peer on an exporting state store with a real event publisher; every update it publishes is turned into
+// the replication response the stream handler sends and forwarded to the importer above (processResponse),
+// also as op lines for the importer model. After every exporter-side write (exported-services config entry:
+// add / remove / swap in one write / wildcard / rewritten unchanged; instance registrations with changed
+// port, status or service name; deregistrations; check deletions) the harness forwards until everything
+// exported has reached the wire (no sleeps; a 4 s idle timeout only bounds the wait for an exporter that
+// withholds something) and checks the mirror property: for every service exported to the peer, the last
+// snapshot received since the importer last dropped it and CheckServiceNodes on the importer equal the
+// exporter's CheckServiceNodes modulo the documented normalisation (typical kinds, checks flattened into
+// "<id>:overall-check"); nothing else is left on the importer.
+//
+// Exporter duplicate suppression alone (playDedup). The real handleEvent (syncNormalServices,
+// sendPendingEvents, cleanupEventVersions) driven synchronously with list and snapshot events, every
+// sent / dropped decision compared with the model CV.PeerExport, plus a monitor: a snapshot of an exported
+// service is dropped as a duplicate only if the importing side holds exactly it.
+//
 // Export side. Store.ExportedServicesForPeer over generated exported-services entries (exact, wildcard,
 // several peers, the "consul" name, non-peer consumers), local registrations and discovery chains.
 //
@@ -35,15 +52,18 @@
 package main
 
 import (
+	"context"
 	"fmt"
 	"sort"
 	"strings"
+	"time"
 
 	"github.com/hashicorp/go-hclog"
 	"github.com/hashicorp/raft"
 	"google.golang.org/protobuf/proto"
 	"google.golang.org/protobuf/types/known/anypb"
 
+	"github.com/hashicorp/consul/agent/cache"
 	"github.com/hashicorp/consul/agent/connect"
 	"github.com/hashicorp/consul/agent/consul/fsm"
 	"github.com/hashicorp/consul/agent/consul/state"
@@ -920,6 +940,8 @@ type monCtx struct {
 	spell       map[string]string
 	variants    map[string]bool // lower-cased names met in two spellings
 	caseVariant bool
+	// explainedSeen: number of failures of this case whose classifier matched a known mechanism
+	explainedSeen int
 	// idMoved: the update being checked hands the UUID of a stored node to another node while the
 	// previous holder is itself part of the snapshot (history shape of one known finding)
 	idMoved bool
@@ -993,6 +1015,9 @@ func (m *monCtx) violate(sig, desc string, names ...string) {
 		// Go maps by exact spelling, the state store by lower-cased names
 		desc = "[" + sig + "] " + desc
 		sig = "import:names-differing-only-in-case"
+	}
+	if explained[sig] || sig == "import:node-id-moved-between-snapshot-nodes" || sig == "import:names-differing-only-in-case" {
+		m.explainedSeen++
 	}
 	report(m.run, sig, desc, m.replay)
 }
@@ -1428,12 +1453,20 @@ func (se *session) emit(op, out string) {
 	se.hist = append(se.hist, op)
 }
 
-func (se *session) list(p string, names []string) result {
+func (se *session) list(p string, names []string) result { return se.listWith(p, names, nil) }
+
+// listWith forwards resp (a response built by the real exporter) instead of building one
+func (se *session) listWith(p string, names []string, resp *pbpeerstream.ReplicationMessage_Response) result {
 	run, w, mon := se.run, se.w, se.mon
 	othersBefore := w.others(p)
 	nodesB, svcsB, onB := mon.peerState(p)
 	mon.note(names...)
-	res := w.sendList(p, names)
+	var res result
+	if resp != nil {
+		res = w.process(p, resp)
+	} else {
+		res = w.sendList(p, names)
+	}
 	se.emit(fmt.Sprintf("list %s %s", hx.EncS(p), hx.EncSList(names)), resLine(res))
 	se.emit("dump", w.dump())
 	mon.replay = se.hist
@@ -1456,6 +1489,11 @@ func (se *session) list(p string, names []string) result {
 }
 
 func (se *session) upd(p, name string, is []inst, kind string) result {
+	return se.updWith(p, name, is, kind, nil)
+}
+
+// updWith forwards resp (a response built by the real exporter, carrying the instances is) instead of building one
+func (se *session) updWith(p, name string, is []inst, kind string, resp *pbpeerstream.ReplicationMessage_Response) result {
 	run, w, mon := se.run, se.w, se.mon
 	othersBefore := w.others(p)
 	nodesB, svcsB, onB := mon.peerState(p)
@@ -1465,7 +1503,12 @@ func (se *session) upd(p, name string, is []inst, kind string) result {
 	before, _ := w.csn(p, name)
 	mon.note(name)
 	mon.noteInsts(is)
-	res := w.sendService(p, name, is)
+	var res result
+	if resp != nil {
+		res = w.process(p, resp)
+	} else {
+		res = w.sendService(p, name, is)
+	}
 	ordered := orderByCalls(is, res.calls)
 	se.emit(fmt.Sprintf("upd %s %s %s", hx.EncS(p), hx.EncS(name), encInsts(ordered)), resLine(res))
 	se.emit("dump", w.dump())
@@ -1665,6 +1708,526 @@ func runExhaustive(run *hx.Run) int {
 	}
 	run.Tag("exhaustive:snapshot-pairs")
 	return n
+}
+
+// ---------------------------------------------------------------- exporter: duplicate suppression (synchronous)
+
+// payloadCSN is the snapshot with "hash" h: no instance for 0, else one instance whose port is h.
+func payloadCSN(name string, h int) *pbservice.IndexedCheckServiceNodes {
+	out := &pbservice.IndexedCheckServiceNodes{}
+	if h > 0 {
+		c := &structs.CheckServiceNode{
+			Node:    &structs.Node{Node: "n1", Address: "10.0.0.1", Datacenter: "dc1"},
+			Service: mkNodeService(svcDef{name + "1", name, 8000 + h}, ""),
+		}
+		out.Nodes = append(out.Nodes, pbservice.NewCheckServiceNodeFromStructs(c))
+	}
+	return out
+}
+
+type xev struct {
+	list  bool
+	names []string
+	name  string
+	h     int
+}
+
+// playDedup drives the real handleEvent (sendPendingEvents / cleanupEventVersions) with a sequence of list and
+// snapshot events, compares every decision with the model (CV.PeerExport) and checks on its own that a snapshot
+// of a watched service is dropped as a duplicate only if the peer holds it.
+func playDedup(run *hx.Run, evs []xev, tag string) {
+	d := peerstream.VerifC17NewDedup()
+	var hist []string
+	emit := func(op, out string) {
+		run.Line(op, out)
+		hist = append(hist, op)
+	}
+	emit("xreset", "ok")
+	peerHolds := map[string]int{} // what the importer holds: last snapshot sent, pruned by every list sent
+	watched := map[string]bool{}
+	for _, e := range evs {
+		if e.list {
+			sent, w, err := d.List(e.names)
+			if err != nil {
+				panic(err)
+			}
+			wt := make([]string, len(w))
+			for i, n := range w {
+				wt[i] = hx.EncS(n)
+			}
+			out := "dup"
+			if sent {
+				out = "sent"
+				keep := map[string]bool{}
+				for _, n := range e.names {
+					keep[n] = true
+				}
+				for n := range peerHolds {
+					if !keep[n] {
+						delete(peerHolds, n)
+					}
+				}
+			}
+			emit(fmt.Sprintf("xlist %s", hx.EncSList(e.names)), fmt.Sprintf("%s watched=%s", out, hx.EncList(wt)))
+			watched = map[string]bool{}
+			for _, n := range w {
+				watched[n] = true
+			}
+			run.Tag("dedup:list-" + out)
+			continue
+		}
+		sent, err := d.Data(e.name, payloadCSN(e.name, e.h))
+		if err != nil {
+			panic(err)
+		}
+		out := "dup"
+		if sent {
+			out = "sent"
+			peerHolds[e.name] = e.h
+		}
+		emit(fmt.Sprintf("xdata %s %d", hx.EncS(e.name), e.h), out)
+		run.Tag("dedup:data-" + out)
+		if have, ok := peerHolds[e.name]; watched[e.name] && (!ok || have != e.h) {
+			report(run, "export:exported-service-not-mirrored", fmt.Sprintf("the exporter dropped snapshot %d of exported service %s as a duplicate although the importing side does not hold it (it holds %v)", e.h, e.name, peerHolds), hist)
+		}
+	}
+	run.Tag("dedup:" + tag)
+	run.Case(strings.Join(hist, "\n"), true)
+}
+
+func runDedupCase(run *hx.Run, r *hx.RNG) {
+	names := []string{"web", "api", "db"}
+	cur := map[string]bool{}
+	var evs []xev
+	listOf := func() []string {
+		var l []string
+		for _, n := range names {
+			if cur[n] {
+				l = append(l, n)
+			}
+		}
+		return l
+	}
+	for k := 6 + r.Intn(10); k > 0; k-- {
+		switch c := r.Intn(10); {
+		case c < 4:
+			switch r.Intn(5) {
+			case 0: // re-read, unchanged
+			case 1, 2: // swap: one leaves, another one joins in the same write
+				var in, out []string
+				for _, n := range names {
+					if cur[n] {
+						in = append(in, n)
+					} else {
+						out = append(out, n)
+					}
+				}
+				if len(in) > 0 && len(out) > 0 {
+					cur[hx.Pick(r, in)] = false
+					cur[hx.Pick(r, out)] = true
+				} else {
+					cur[hx.Pick(r, names)] = true
+				}
+			default:
+				n := hx.Pick(r, names)
+				cur[n] = !cur[n]
+			}
+			evs = append(evs, xev{list: true, names: listOf()})
+		default:
+			n := hx.Pick(r, names)
+			if l := listOf(); len(l) > 0 && r.Chance(85) {
+				n = hx.Pick(r, l)
+			}
+			evs = append(evs, xev{name: n, h: r.Intn(3)})
+		}
+	}
+	playDedup(run, evs, "generated")
+}
+
+// ---------------------------------------------------------------- exporter -> importer, end to end
+
+type e2e struct {
+	run      *hx.Run
+	se       *session // the importing cluster (real importer path, model lines, importer monitors)
+	store    *state.Store
+	ch       <-chan cache.UpdateEvent
+	cancel   context.CancelFunc
+	peerID   string
+	idx      uint64
+	nonce    int
+	lastList []string // names of the last list forwarded (nil: none yet)
+	gotList  bool
+	deliv    map[string]string // canonical last snapshot forwarded per service since the importer last dropped it
+	writes   []string
+	failed   bool
+}
+
+const (
+	e2ePeerOnExporter = "importer" // name of the peering on the exporting cluster
+	e2ePeerOnImporter = "p1"       // name of the peering on the importing cluster
+)
+
+func canonInsts(is []inst) string {
+	t := make([]string, len(is))
+	for i, x := range is {
+		t[i] = canonInst(x)
+	}
+	sort.Strings(t)
+	return strings.Join(t, " ; ")
+}
+
+func newE2E(run *hx.Run) *e2e {
+	store, publisher, ctx, cancel := peerstream.VerifC17NewExporterStore()
+	x := &e2e{run: run, se: newSession(run, true), store: store, cancel: cancel, idx: 10, deliv: map[string]string{},
+		peerID: "0e2e0e2e-0000-0000-0000-00000000e2e0"}
+	must := func(err error) {
+		if err != nil {
+			panic(err)
+		}
+	}
+	must(store.CASetConfig(x.next(), &structs.CAConfiguration{Provider: "consul", ClusterID: connect.TestClusterID}))
+	must(store.PeeringWrite(x.next(), &pbpeering.PeeringWriteRequest{Peering: &pbpeering.Peering{ID: x.peerID, Name: e2ePeerOnExporter}}))
+	x.ch = peerstream.VerifC17Subscribe(ctx, store, publisher, x.peerID, e2ePeerOnExporter)
+	return x
+}
+
+func (x *e2e) next() uint64 { x.idx++; return x.idx }
+
+// exported: what the exporting cluster exports to the peer right now, and the normalised view of each service
+func (x *e2e) exported() ([]string, map[string][]inst) {
+	_, list, err := x.store.ExportedServicesForPeer(nil, x.peerID, "dc1")
+	if err != nil {
+		panic(err)
+	}
+	var names []string
+	want := map[string][]inst{}
+	for _, sn := range list.Services {
+		names = append(names, sn.Name)
+		_, csns, err := x.store.CheckServiceNodes(nil, sn.Name, structs.DefaultEnterpriseMetaInDefaultPartition(), "")
+		if err != nil {
+			panic(err)
+		}
+		var is []inst
+		for _, c := range csns {
+			// documented normalisation: typical kinds only, no "-sidecar-proxy" names, checks flattened into one
+			if c.Service.Kind != structs.ServiceKindTypical || strings.HasSuffix(c.Service.Service, "-sidecar-proxy") {
+				continue
+			}
+			it := inst{node: nodeDef{c.Node.Node, string(c.Node.ID), c.Node.Address}, svc: svcDef{c.Service.ID, c.Service.Service, c.Service.Port}}
+			if len(c.Checks) > 0 {
+				st := "passing"
+				for _, k := range c.Checks {
+					st = worst(st, k.Status)
+				}
+				it.chks = []chkDef{{c.Node.Node, c.Service.ID + ":overall-check", c.Service.ID, c.Service.Service, st}}
+			}
+			is = append(is, it)
+		}
+		want[sn.Name] = is
+	}
+	sort.Strings(names)
+	return names, want
+}
+
+func (x *e2e) forward(evt cache.UpdateEvent) {
+	resp, isList, err := peerstream.VerifC17MakeResponse(x.se.w.mst, evt)
+	if err != nil {
+		panic(err)
+	}
+	x.nonce++
+	resp.Nonce = fmt.Sprint(x.nonce)
+	if isList {
+		l := evt.Result.(*pbpeerstream.ExportedServiceList)
+		names := append([]string(nil), l.Services...)
+		x.se.listWith(e2ePeerOnImporter, names, resp)
+		x.lastList, x.gotList = names, true
+		keep := map[string]bool{}
+		for _, n := range names {
+			keep[n] = true
+		}
+		for n := range x.deliv {
+			if !keep[n] {
+				delete(x.deliv, n) // the importer drops what the list no longer names
+			}
+		}
+		x.run.Tag("e2e:forwarded-list")
+		return
+	}
+	csn := evt.Result.(*pbservice.IndexedCheckServiceNodes)
+	var is []inst
+	for _, n := range csn.Nodes {
+		c, err := pbservice.CheckServiceNodeToStructs(n)
+		if err != nil {
+			panic(err)
+		}
+		it := inst{node: nodeDef{c.Node.Node, string(c.Node.ID), c.Node.Address}, svc: svcDef{c.Service.ID, c.Service.Service, c.Service.Port}}
+		for _, k := range c.Checks {
+			it.chks = append(it.chks, chkDef{k.Node, string(k.CheckID), k.ServiceID, k.ServiceName, k.Status})
+		}
+		is = append(is, it)
+	}
+	name := resp.ResourceID
+	x.se.updWith(e2ePeerOnImporter, name, is, "e2e", resp)
+	x.deliv[name] = canonInsts(is)
+	x.run.Tag("e2e:forwarded-service")
+}
+
+func sameNames(a, b []string) bool {
+	a, b = append([]string(nil), a...), append([]string(nil), b...)
+	sort.Strings(a)
+	sort.Strings(b)
+	return strings.Join(a, ",") == strings.Join(b, ",")
+}
+
+// delivered: everything the exporter exports right now has reached the wire
+func (x *e2e) delivered() bool {
+	names, want := x.exported()
+	if !x.gotList || !sameNames(names, x.lastList) {
+		return false
+	}
+	for _, n := range names {
+		d, ok := x.deliv[n]
+		if !ok && len(want[n]) == 0 {
+			continue
+		}
+		if !ok || d != canonInsts(want[n]) {
+			return false
+		}
+	}
+	return true
+}
+
+// quiesce forwards everything the exporter publishes until all it exports has been delivered, or until it has
+// been silent for the idle timeout (only a failing exporter makes us wait).
+func (x *e2e) quiesce() {
+	const idle = 4 * time.Second
+	for {
+		for drained := false; !drained; {
+			select {
+			case evt := <-x.ch:
+				x.forward(evt)
+			default:
+				drained = true
+			}
+		}
+		if x.delivered() {
+			return
+		}
+		select {
+		case evt := <-x.ch:
+			x.forward(evt)
+		case <-time.After(idle):
+			x.run.Tag("e2e:quiesce-timeout")
+			return
+		}
+	}
+}
+
+// mirror: the property, end to end
+func (x *e2e) mirror() {
+	replay := append(append([]string(nil), x.writes...), x.se.hist...)
+	names, want := x.exported()
+	if !x.gotList || !sameNames(names, x.lastList) {
+		for _, n := range names {
+			if !contains(x.lastList, n) {
+				report(x.run, "export:exported-service-not-mirrored", fmt.Sprintf("service %s is exported to the peer but the exported-service list the importer received (%v) does not name it", n, x.lastList), replay)
+				x.failed = true
+			}
+		}
+		for _, n := range x.lastList {
+			if !contains(names, n) {
+				report(x.run, "export:unexported-service-still-present", fmt.Sprintf("service %s is no longer exported to the peer but the last exported-service list the importer received (%v) still names it", n, x.lastList), replay)
+				x.failed = true
+			}
+		}
+	}
+	for _, n := range names {
+		w := canonInsts(want[n])
+		d, ok := x.deliv[n]
+		if (!ok && len(want[n]) > 0) || (ok && d != w) {
+			report(x.run, "export:exported-service-not-mirrored", fmt.Sprintf("service %s is exported with instances [%s] but the last snapshot the importer received for it since it last dropped the service is [%s] (received at all: %v)", n, w, d, ok), replay)
+			x.failed = true
+			continue
+		}
+		// delivered: now the importer's catalog itself
+		got, st := x.se.w.csn(e2ePeerOnImporter, n)
+		var gi []inst
+		for _, v := range got {
+			gi = append(gi, inst{v.node, v.svc, v.chks})
+		}
+		if strings.HasPrefix(st, "err:") || canonInsts(gi) != w {
+			if x.se.mon.explainedSeen > 0 {
+				x.run.Tag("e2e:importer-differs(known-importer-finding-in-this-case)")
+			} else {
+				report(x.run, "import:catalog-differs-from-delivered-snapshot", fmt.Sprintf("service %s: the importer received [%s] but its catalog shows [%s] %s", n, w, canonInsts(gi), st), replay)
+				x.failed = true
+			}
+		}
+	}
+	_, svcs, _ := x.se.mon.peerState(e2ePeerOnImporter)
+	seen := map[string]bool{}
+	for _, s := range svcs {
+		if !contains(names, s.sname) && !seen[s.sname] {
+			seen[s.sname] = true
+			report(x.run, "export:unexported-service-still-present", fmt.Sprintf("service %s is not exported to the peer (exported: %v) but the importer still has instances of it", s.sname, names), replay)
+			x.failed = true
+		}
+	}
+}
+
+func contains(l []string, s string) bool {
+	for _, x := range l {
+		if x == s {
+			return true
+		}
+	}
+	return false
+}
+
+// write applies one change to the exporting cluster, waits for quiescence and checks the mirror property
+func (x *e2e) write(desc string, f func() error) {
+	if err := f(); err != nil {
+		panic(fmt.Sprintf("exporter write %s: %v", desc, err))
+	}
+	x.writes = append(x.writes, "# exporter: "+desc)
+	x.quiesce()
+	x.mirror()
+}
+
+func (x *e2e) export(names []string, others bool) {
+	ce := &structs.ExportedServicesConfigEntry{Name: "default"}
+	for _, n := range names {
+		cons := []structs.ServiceConsumer{{Peer: e2ePeerOnExporter}}
+		if others {
+			cons = append(cons, structs.ServiceConsumer{Peer: "someone-else"})
+		}
+		ce.Services = append(ce.Services, structs.ExportedService{Name: n, Consumers: cons})
+	}
+	if others {
+		ce.Services = append(ce.Services, structs.ExportedService{Name: "cache", Consumers: []structs.ServiceConsumer{{Peer: "someone-else"}}})
+	}
+	x.write(fmt.Sprintf("export %v", names), func() error {
+		if err := ce.Normalize(); err != nil {
+			return err
+		}
+		return x.store.EnsureConfigEntry(x.next(), ce)
+	})
+}
+
+func (x *e2e) register(node, addr, sid, sname string, port int, status string) {
+	req := &structs.RegisterRequest{Datacenter: "dc1", Node: node, Address: addr,
+		Service: &structs.NodeService{Kind: structs.ServiceKindTypical, ID: sid, Service: sname, Port: port}}
+	if status != "" {
+		req.Checks = structs.HealthChecks{{Node: node, CheckID: types.CheckID("service:" + sid), Name: "c", Status: status, ServiceID: sid}}
+	}
+	x.write(fmt.Sprintf("register %s/%s=%s:%d check=%s", node, sid, sname, port, status), func() error {
+		return x.store.EnsureRegistration(x.next(), req)
+	})
+}
+
+func (x *e2e) finish(tag string) {
+	x.cancel()
+	x.run.Tag("e2e:" + tag)
+	x.run.Case(strings.Join(append(append([]string(nil), x.writes...), x.se.hist...), "\n"), true)
+}
+
+// the history of the seeded regression C17-1: export a; swap a for b in one write; export a again, unchanged
+func runE2ECorpus(run *hx.Run) {
+	x := newE2E(run)
+	x.write("subscribe", func() error { return nil })
+	x.register("n1", "10.0.0.1", "web1", "web", 80, "passing")
+	x.register("n2", "10.0.0.2", "api1", "api", 80, "passing")
+	x.export([]string{"web"}, false)
+	x.export([]string{"api"}, false)
+	x.export([]string{"api", "web"}, false)
+	x.finish("corpus:swap-then-re-export-unchanged")
+}
+
+func runE2ECase(run *hx.Run, r *hx.RNG) {
+	x := newE2E(run)
+	x.write("subscribe", func() error { return nil })
+	names := []string{"web", "api", "db"}
+	nodes := []string{"n1", "n2", "n3"}
+	sids := []string{"web1", "api1", "s1", "s2"}
+	cur := map[string]bool{}
+	listOf := func() []string {
+		var l []string
+		for _, n := range names {
+			if cur[n] {
+				l = append(l, n)
+			}
+		}
+		return l
+	}
+	type key struct{ node, sid string }
+	regs := map[key]bool{}
+	for k := 5 + r.Intn(8); k > 0 && !x.failed; k-- {
+		switch c := r.Intn(12); {
+		case c < 5: // exported-services config entry write
+			switch r.Intn(6) {
+			case 0: // rewritten unchanged
+				run.Tag("e2e:export-unchanged")
+			case 1, 2: // swap in one write
+				var in, out []string
+				for _, n := range names {
+					if cur[n] {
+						in = append(in, n)
+					} else {
+						out = append(out, n)
+					}
+				}
+				if len(in) > 0 && len(out) > 0 {
+					cur[hx.Pick(r, in)] = false
+					cur[hx.Pick(r, out)] = true
+					run.Tag("e2e:export-swap")
+				} else {
+					cur[hx.Pick(r, names)] = true
+				}
+			case 3:
+				if r.Chance(30) {
+					x.export([]string{"*"}, r.Chance(30))
+					run.Tag("e2e:export-wildcard")
+					for _, n := range names {
+						cur[n] = false
+					}
+					continue
+				}
+				fallthrough
+			default:
+				n := hx.Pick(r, names)
+				cur[n] = !cur[n]
+				if cur[n] {
+					run.Tag("e2e:export-add")
+				} else {
+					run.Tag("e2e:export-remove")
+				}
+			}
+			x.export(listOf(), r.Chance(30))
+		case c < 9: // (re-)registration: new instance, changed port / status, instance id changing service
+			node, sid := hx.Pick(r, nodes), hx.Pick(r, sids)
+			regs[key{node, sid}] = true
+			x.register(node, "10.0.0."+node[1:], sid, hx.Pick(r, names), hx.Pick(r, ports), hx.Pick(r, []string{"", "passing", "warning", "critical"}))
+			run.Tag("e2e:register")
+		case c < 11:
+			for kk := range regs {
+				delete(regs, kk)
+				x.write(fmt.Sprintf("deregister %s/%s", kk.node, kk.sid), func() error {
+					return x.store.DeleteService(x.next(), kk.node, kk.sid, nil, "")
+				})
+				run.Tag("e2e:deregister")
+				break
+			}
+		default:
+			for kk := range regs {
+				x.write(fmt.Sprintf("delete check of %s/%s", kk.node, kk.sid), func() error {
+					return x.store.DeleteCheck(x.next(), kk.node, types.CheckID("service:"+kk.sid), nil, "")
+				})
+				run.Tag("e2e:delete-check")
+				break
+			}
+		}
+	}
+	x.finish("generated")
 }
 
 // ---------------------------------------------------------------- malformed / protocol-level stream
@@ -1953,8 +2516,17 @@ func runExportCase(run *hx.Run, r *hx.RNG) {
 
 func main() {
 	run := hx.Start()
-	run.Rule = "one case = a fresh importing cluster (real FSM + state store + peerstream.Server), a random prior catalog (local, other peers, earlier imports) and 3-8 replication messages taken from a mutating simulated exporter (or arbitrary snapshots), each followed by a full catalog dump and the monitors; or one exported-services configuration queried for 3 peers; plus 6 fixed corpus histories and, in the thorough tier, 968 exhaustive snapshot pairs; cases with names differing only in case (12%) run through the monitors only; distinct by the full op history; non-trivial = at least one catalog command was issued / at least one export entry exists"
+	run.Rule = "one case = a fresh importing cluster (real FSM + state store + peerstream.Server), a random prior catalog (local, other peers, earlier imports) and 3-8 replication messages taken from a mutating simulated exporter (or arbitrary snapshots), each followed by a full catalog dump and the monitors; or one exported-services configuration queried for 3 peers; plus exporter duplicate-suppression histories (real handleEvent, synchronous) and exporter->importer histories (real subscriptionManager + event publisher feeding the real importer, mirror check after every exporter write); plus 8 fixed corpus histories and, in the thorough tier, 968 exhaustive snapshot pairs; cases with names differing only in case (12%) run through the monitors only; distinct by the full op history; non-trivial = at least one catalog command was issued / at least one export entry exists"
 	runCorpus(run)
+	playDedup(run, []xev{{list: true, names: []string{"web"}}, {name: "web", h: 1}, {list: true, names: []string{"api"}},
+		{name: "api", h: 2}, {list: true, names: []string{"api", "web"}}, {name: "web", h: 1}, {name: "api", h: 2}}, "corpus:swap-then-re-export-unchanged")
+	runE2ECorpus(run)
+	for i := run.Scale(40, 400); i > 0; i-- {
+		runDedupCase(run, run.RNG.Fork(uint64(1000000+i)))
+	}
+	for i := run.Scale(25, 250); i > 0; i-- {
+		runE2ECase(run, run.RNG.Fork(uint64(2000000+i)))
+	}
 	if run.Thorough() {
 		run.Extra["exhaustive"] = true
 		run.Extra["exhaustive_scope"] = "all (prior, new) snapshot pairs of one service over 2 nodes x 3 instance slots x {node check, service check}, with and without a second imported service on the shared node"
